@@ -97,7 +97,7 @@ def check_reference_resolved_afresh(ck, R):
         want = {"qualified_name": "qualifiedName", "partial_args": "partialArgs", "partial_kwargs": "partialKwargs", "parameter_names": "parameterNames"}
         for kw, field in want.items():
             v = A.kwarg(c, kw)
-            ok = v is not None and field in A.strings_in(v)
+            ok = v is not None and (field in A.strings_in(v) or ("const:%r" % field) in df.deps(v))
             ck.ob(R, df.key(c, "state-field:" + field), ok, "%s is taken from state['%s']" % (kw, field) if ok else
                   "from_qualified_name is not given %s from state['%s']" % (kw, field), df.where(c))
 
